@@ -546,6 +546,42 @@ func c12Store(c *fw.Ctx, ep entryPoint, v any) {
 			c.Count("converted_containers_modified_afterwards")
 			if bad != "" {
 				c.Violate("converted-container-unusable", in(), "a fresh container that can be modified like any other", bad)
+			} else if w, err := drive.Walk(got); err == nil {
+				// ... each on its own: with what was written taken away again, the tree is the converted value once more (a write
+				// to one converted container has not moved anything in its neighbours)
+				var strip func(n *spec.Spec) *spec.Spec
+				strip = func(n *spec.Spec) *spec.Spec {
+					out := &spec.Spec{K: n.K, B: n.B, I: n.I, F: n.F, S: n.S}
+					switch n.K {
+					case spec.List:
+						l := n.L
+						for {
+							k := len(l)
+							if k >= 2 && k <= 202 && l[0].K == spec.Str && l[0].S == "front" && l[k-1].K == spec.Str && l[k-1].S == "poison" {
+								l = l[1 : k-1]
+								continue
+							}
+							break
+						}
+						for _, e := range l {
+							out.L = append(out.L, strip(e))
+						}
+					case spec.Obj:
+						for i, k := range n.Keys {
+							if strings.HasPrefix(k, "poison") && len(n.Keys) <= 202 {
+								continue
+							}
+							out.Keys = append(out.Keys, k)
+							out.Vals = append(out.Vals, strip(n.Vals[i]))
+						}
+					}
+					return out
+				}
+				// (containers that existed before the conversion are held by identity and come through here once per entry point:
+				// what earlier rounds wrote into them is taken away on both sides)
+				if d := spec.Diff(strip(w.ToSpec()), strip(want)); d != "" {
+					c.Violate("converted-container-unusable", in(), "after a write to every converted container, each holds its own content plus what was written: "+spec.Trunc(want.Canon(), 400), d+"\nnow: "+spec.Trunc(w.Canon(), 600))
+				}
 			}
 		}
 	})
@@ -623,6 +659,10 @@ func runC12(c *fw.Ctx) {
 		map[string]at.Object(nil), map[string]at.Object{}, map[string]at.List(nil), map[string]at.List{}, map[string]string(nil), map[string]string{"a": "b", "": ""}, map[string]bool{"t": true},
 		map[string]int(nil), map[string]int{"a": 1, "b": math.MinInt}, map[string]float64(nil), map[string]float64{"a": 0.5},
 		[]any{map[string]int{"a": 1}, []float64{1}, map[string]string{"k": "v"}, []bool{true}, map[string]bool{}, map[string]float64{}},
+		// tables: rows of one width, records of one shape (each row / record becomes a container of its own)
+		[]any{[]any{1, 2, 3}, []any{4, 5, 6}}, []any{[]any{"a"}, []any{"b"}, []any{"c"}}, map[string]any{"t": []any{[]any{1, 2}, []any{3, 4}, []any{5, 6}}},
+		[]any{[]int{1, 2}, []int{3, 4}}, []any{[]string{"x", "y"}, []string{"z", "w"}}, []any{map[string]any{"id": 1, "v": "a"}, map[string]any{"id": 2, "v": "b"}},
+		[]any{[]any{[]any{1}, []any{2}}, []any{[]any{3}, []any{4}}}, map[string]any{"a": []any{1, 2}, "b": []any{3, 4}},
 		[]at.Object{nil}, []at.List{nil, nil}, []at.Object{at.NewObject("x", 1), nil}, map[string]at.Object{"n": nil}, map[string]at.List{"n": nil, "l": at.NewList(1)},
 		[]any{[]at.List{nil}, map[string]at.Object{"n": nil}}, []int{}, []string{}, []float64{}, []bool{}, []any{[]any{}, []int{}, map[string]any{}},
 		map[string]any{"i8": int8(-1), "u8": uint8(255), "i16": int16(-300), "u16": uint16(65535), "i32": int32(-70000), "u32": uint32(70000), "i64": int64(-1), "u64": uint64(1), "u": uint(2), "f32": float32(1.5)},
